@@ -131,7 +131,7 @@ def generate(repo, out_dir):
             if ty == "...":
                 continue
             if ty in INTS:
-                decl.append("    %s a%d = (%s) (shape & 1);" % (ty, i, ty)); protos.append(ty); args.append("a%d" % i); continue
+                decl.append("    %s a%d = (%s) c16_int(shape);" % (ty, i, ty)); protos.append(ty); args.append("a%d" % i); continue
             if ty not in TYPES:
                 ok = False; notes.append("unknown-type\t%s\t%s" % (name, ty)); break
             cty, maker, snap = TYPES[ty]
